@@ -9,7 +9,8 @@ open Twisted.Defer.Depth
 theorem inner_ret_steal (f D cur j : Nat) (cbs : List Cb) (rest : List Nat) (st : St) (r' : Res)
     (hne : j ≠ cur) (hsz : cur < st.heap.size) (hsz' : j < st.heap.size)
     (h : (st.get cur).callbacks = .ret j :: cbs) (hj : (st.get j).result = r')
-    (hr1 : r' ≠ .none) (hr2 : r'.isDfd = false) (hp : (st.get j).paused = 0) :
+    (hr1 : r' ≠ .none) (hr2 : r'.isDfd = false) (hp : (st.get j).paused = 0)
+    (hcs : (st.get j).callbacks = []) :
     ∃ st', inner (f+2) D cur rest st = inner (f+1) D cur rest st' ∧
       st'.heap.size = st.heap.size ∧
       st'.get cur = { st.get cur with callbacks := cbs, running := false, result := r' } ∧
@@ -24,8 +25,8 @@ theorem inner_ret_steal (f D cur j : Nat) (cbs : List Cb) (rest : List Nat) (st 
   have hjg : ((((beforeCb cur cbs st).enter (D + 1)).set cur
       { ((beforeCb cur cbs st).enter (D + 1)).get cur with running := false, result := Res.dfd j }).get j) = st.get j := by
     simp (disch := omega) [beforeCb, get_set_ne]
-  rw [hjg, hj, hp]
-  have hcond : ¬ (r' = .none ∨ r'.isDfd = true ∨ (0 : Int) ≠ 0) := by
+  rw [hjg, hj, hp, hcs]
+  have hcond : ¬ (r' = .none ∨ r'.isDfd = true ∨ (0 : Int) ≠ 0 ∨ ([] : List Cb) ≠ []) := by
     simp [hr1, hr2]
   rw [if_neg hcond]
   refine ⟨_, rfl, ?_, ?_, ?_, ?_, ?_, ?_, ?_⟩
@@ -89,7 +90,7 @@ theorem fire_steal (n k g : Nat) (v : Int) (r : Res) (hr0 : r ≠ .none) (hr : r
   have hn1 : s1.get (k+1) = { called := true, result := r } := by rw [hf1 (k+1) (by omega), h.here]
   obtain ⟨s2, e2, hs2, hg2, hgn2, hf2, hp2, ho2, hr2⟩ :=
     inner_ret_steal (g+2) 3 k (k+1) [.probe] [] s1 r (by omega) (by omega) (by omega) hcb
-      (by rw [hn1]) hr0 hr (by rw [hn1])
+      (by rw [hn1]) hr0 hr (by rw [hn1]) (by rw [hn1])
   have hres2 : s2.get k = { called := true, paused := 0, result := r, callbacks := .probe :: [], running := false } := by
     rw [hg2, hg1, hhere]
   obtain ⟨s3, e3, hs3, hg3, hf3, hp3, ho3, hr3⟩ :=
